@@ -105,6 +105,8 @@ func main() {
 		runScenarios()
 	case "redact":
 		runRedact()
+	case "names":
+		runNames()
 	default:
 		fmt.Fprintln(os.Stderr, "unknown mode")
 		os.Exit(3)
@@ -113,6 +115,9 @@ func main() {
 
 // cycle runs load -> persist -> stop -> reload -> persist on path and emits the observation events.
 // obsFn maps a persisted document to the per-field observations (may be nil).
+// reloadExtra, when set, adds observations of the second life to the reload event.
+var reloadExtra func() map[string]interface{}
+
 func cycle(tr *tracer, path string, obsFn func(doc interface{}) map[string]string) {
 	cycleLoadEv(tr, path, obsFn, false)
 }
@@ -169,7 +174,13 @@ func cycleLoadEv(tr *tracer, path string, obsFn func(doc interface{}) map[string
 	e1 := effFacts()
 	var fd []string
 	diffTrees(e0, e1, "", &fd)
-	tr.Emit(vh.Ev{"ev": "reload", "ok": true, "diff": strs(fd)})
+	rev := vh.Ev{"ev": "reload", "ok": true, "diff": strs(fd)}
+	if reloadExtra != nil {
+		for k, v := range reloadExtra() {
+			rev[k] = v
+		}
+	}
+	tr.Emit(rev)
 	d2, err := l1.Persist()
 	l1.Stop()
 	if err != nil {
